@@ -76,6 +76,7 @@ class Trace:
         self.exc: Optional[BaseException] = None
         self.kwargs: Dict[str, Any] = {}
         self.intercepted: Dict[str, List[Any]] = {}
+        self.user_array_modified = 0  # times the library wrote into an array owned by the user's jac
 
     @property
     def nf(self) -> int:
@@ -94,6 +95,7 @@ def make_closures(
     obj=None,
     check_finite: bool = True,
     gate: Optional[Callable[[str], None]] = None,
+    jac_style: str = "fresh",
 ):
     """fun/jac closures over the harness's objective that log every call.
     fault = {"kind": "fun"|"jac", "index": j, "exc": exception instance} raises at the j-th call (0-based)."""
@@ -127,6 +129,18 @@ def make_closures(
         tr.events.append(("g", i))
         if check_finite and not np.all(np.isfinite(gv)):
             raise Discard("harness gradient non-finite")
+        if jac_style == "buffer":
+            # a legal user pattern: the gradient is written into a preallocated work array that is
+            # returned every time.  The library must neither keep a reference to it as if it were its
+            # own nor modify it: the harness checks on every call that nobody else wrote into it.
+            buf = holder.get("buf")
+            if buf is None:
+                buf = holder["buf"] = np.empty(np.shape(gv), dtype=float)
+            elif holder.get("buf_last") is not None and not np.array_equal(buf, holder["buf_last"]):
+                tr.user_array_modified += 1
+            buf[...] = gv
+            holder["buf_last"] = np.array(gv, copy=True)
+            return buf
         return gv
 
     return fun, jac, holder
@@ -151,11 +165,12 @@ def run_min(
     catch: bool = True,
     gate=None,
     trace: Optional[Trace] = None,
+    jac_style: str = "fresh",
 ) -> Trace:
     import lbfgsb
 
     tr = trace if trace is not None else Trace()
-    fun, jac, holder = make_closures(prob, tr, fault=fault, obj=obj, gate=gate)
+    fun, jac, holder = make_closures(prob, tr, fault=fault, obj=obj, gate=gate, jac_style=jac_style)
     tr.holder = holder
     kw: Dict[str, Any] = {}
     kw["x0"] = np.array(prob.x0, copy=True) if x0 is None else x0
@@ -266,6 +281,9 @@ def run_min(
         res = lbfgsb.minimize_lbfgsb(**kw)
         tr.result = res
         tr.res = snapshot_state(res)
+        if jac_style == "buffer" and holder.get("buf") is not None and holder.get("buf_last") is not None:
+            if not np.array_equal(holder["buf"], holder["buf_last"]):
+                tr.user_array_modified += 1
     except Discard:
         raise
     except BaseException as e:  # noqa
